@@ -9,7 +9,7 @@
    Depends on the models and the regenerated constants only (not on the proofs). *)
 From Coq Require Import List Bool String ZArith NArith Arith.
 Import ListNotations.
-From HV Require Export run.C03Run model.Schema model.SchemaFast model.DocJson gen.Schemas.
+From HV Require Export run.C03Run model.Schema model.SchemaFast model.DocJson spec.DocJsonS gen.Schemas.
 Open Scope nat_scope.
 
 Definition fuel := default_fuel.
@@ -119,7 +119,17 @@ Definition mon_typed (j : jcase) : bool := C03Run.mon (j_case j).
 Definition mon_coq (j : jcase) : bool :=
   let tab := expand_all (j_strs j) (j_defs j) in forallb (coq_ok tab) (j_docs j).
 Definition mon_py (j : jcase) : bool := forallb d_py (j_docs j).
-Definition mon (j : jcase) : bool := mon_typed j && mon_py j && mon_coq j.
+(* index sanity read off the JSON text itself (spec/DocJsonS.v), for every HUGR document of the case: the HUGR's own
+   document, lowering HUGRs inside extensions, every module of a Package document *)
+Definition jdoc_index_sane (entry : string) (d : json) : bool :=
+  if String.eqb entry "SerialHugr" then json_index_sane d
+  else if String.eqb entry "Package" then
+    match jget "modules" d with Some (JArr ms) => forallb json_index_sane ms | _ => false end
+  else true.
+Definition mon_jidx (j : jcase) : bool :=
+  let tab := expand_all (j_strs j) (j_defs j) in
+  forallb (fun d => jdoc_index_sane (d_entry d) (def_at tab (d_doc d))) (j_docs j).
+Definition mon (j : jcase) : bool := mon_typed j && mon_py j && mon_coq j && mon_jidx j.
 
 (* the case literals are read with strings as `string` and unannotated numbers as `nat` (gen/Schemas.v opens Z_scope) *)
 Open Scope string_scope.
